@@ -882,13 +882,88 @@ Proof.
       congruence.
     + apply existsb_exists in B. destruct B as [r [Hr Hrange]]. apply snap_reports_in in Hr.
       destruct Hr as [reps [ex [Hs Hr]]]. exists reps, ex, r. rewrite andb_true_iff, !N.leb_le in Hrange. tauto.
-  - intros -> c r Hi Hw. rewrite N.eqb_refl, forallb_forall in H4. specialize (H4 _ Hi). cbn [snd] in H4.
+  - intros -> c r Hi Hw. rewrite N.eqb_refl in H4. apply andb_prop in H4. destruct H4 as [H4 _].
+    rewrite forallb_forall in H4. specialize (H4 _ Hi). cbn [snd] in H4.
     destruct (unexecuted r) as [|s u] eqn:E; [discriminate|].
     assert (Hs : In s (unexecuted r)) by (rewrite E; now left). apply (unexecuted_in r s Hw) in Hs. now exists s.
   - intros Hst. destruct (N.eqb_spec st 3) as [|_]; [contradiction|]. apply andb_prop in H4. destruct H4 as [A B].
     split; [now destruct msgs|]. intros Hw.
     apply (flat_spec_rel snap (fun cre => fst (fst cre)) (fun cre => snd (fst cre)) (fun cre => snd cre));
       [intros x r Hx Hr; exact (Hw x r Hx Hr)|exact A].
+Qed.
+
+(* (b) for the Filter round (state 3): the EXACT pending clause, relative to what this outcome's own report holds.
+   Pending after Filter = exactly the committed reports of the snapshot with a message that is neither executed per the
+   snapshot nor in the report; a report that stays pending records (executed per the snapshot or in the report) inside
+   its interval.  Nothing is said about how much the report holds: the clause is true whether or not everything fits. *)
+Lemma in_union_app es1 es2 s : in_union (es1 ++ es2) s <-> in_union es1 s \/ in_union es2 s.
+Proof.
+  unfold in_union. split.
+  - intros [e [He Hs]]. apply in_app_or in He. destruct He as [He|He]; [left|right]; now exists e.
+  - intros [[e [He Hs]]|[e [He Hs]]]; exists e; (split; [apply in_or_app; tauto|exact Hs]).
+Qed.
+Lemma in_union_reported msgs c s : in_union (reported_runs msgs c) s <-> In (c, s) msgs.
+Proof.
+  unfold in_union, reported_runs, in_range. split.
+  - intros [e [He Hs]]. apply in_map_iff in He. destruct He as [[c' s'] [<- Hm]]. apply filter_In in Hm.
+    destruct Hm as [Hm Hc]. cbn [fst snd] in *. apply N.eqb_eq in Hc. subst c'. assert (s = s') by lia. now subst.
+  - intros H. exists (s, s). split; [|cbn [fst snd]; lia]. apply in_map_iff. exists (c, s). split; [reflexivity|].
+    apply filter_In. split; [exact H|]. cbn [fst]. apply N.eqb_refl.
+Qed.
+Lemma in_union_with_reported ex msgs c s :
+  in_union (ex ++ reported_runs msgs c) s <-> in_union ex s \/ In (c, s) msgs.
+Proof. now rewrite in_union_app, in_union_reported. Qed.
+
+Theorem hist_sound_filter snap pend msgs omsgs :
+  hist_ok (3, snap) (Ok (pend, msgs, omsgs)) = true -> snap_wf snap ->
+  (forall c r', In (c, r') pend ->
+     exists reps ex r, In (c, reps, ex) snap /\ In r reps /\
+       p_id r' = p_id r /\ p_lo r' = p_lo r /\ p_hi r' = p_hi r /\
+       ~ (forall s, p_lo r <= s <= p_hi r -> in_union ex s \/ In (c, s) msgs) /\
+       (wf_runs (p_exec r') ->
+        strict_runs (p_exec r') /\
+        forall s, in_runs (p_exec r') s <-> (p_lo r <= s <= p_hi r /\ (in_union ex s \/ In (c, s) msgs)))) /\
+  (forall c reps ex r s, In (c, reps, ex) snap -> In r reps -> p_lo r <= s <= p_hi r ->
+     ~ in_union ex s -> ~ In (c, s) msgs ->
+     exists r', In (c, r') pend /\ p_id r' = p_id r /\ p_lo r' = p_lo r /\ p_hi r' = p_hi r).
+Proof.
+  unfold hist_ok. change (N.eqb 3 3) with true. cbv iota. intros H Hw. rewrite !andb_true_iff in H.
+  destruct H as [_ [_ H]].
+  apply (flat_spec_rel snap (fun cre => fst (fst cre)) (fun cre => snd (fst cre))
+                       (fun cre => snd cre ++ reported_runs msgs (fst (fst cre)))) in H;
+    [|intros x r Hx Hr; exact (Hw x r Hx Hr)].
+  destruct H as [P1 P2]. split.
+  - intros c r' Hi. destruct (P1 c r' Hi) as [[[c0 reps] ex] [r [Hx [Hc [Hr [E1 [E2 [E3 [Hn Hrec]]]]]]]]].
+    cbn [fst snd] in *. subst c0. exists reps, ex, r. repeat (split; [assumption|]). split.
+    + intros Hall. apply Hn. intros s Hs. apply in_union_with_reported. now apply Hall.
+    + intros Hwf. destruct (Hrec Hwf) as [Hst Hiff]. split; [exact Hst|]. intros s. rewrite Hiff.
+      now rewrite in_union_with_reported.
+  - intros c reps ex r s Hx Hr Hs Hnu Hnm. destruct (P2 (c, reps, ex) r Hx Hr) as [r' Hr']; [|now exists r'].
+    cbn [fst snd]. intros Hall. specialize (Hall s Hs). apply in_union_with_reported in Hall. tauto.
+Qed.
+
+(* what state 3 tested before: only the weak clause.  Dropping a report with an unreported unexecuted message from
+   the pending list, or keeping it with a wrong executed list, passed *)
+Definition hist_ok_before (i : hist_in) (o : hist_out) : bool :=
+  let '(st, snap) := i in
+  match o with
+  | Ok (pend, msgs, omsgs) =>
+      list_eqb (pair_eqb N.eqb N.eqb) msgs omsgs &&
+      forallb (fun cs => negb (in_runsb (snap_executed snap (fst cs)) (snd cs)) &&
+                         existsb (fun r => N.leb (p_lo r) (snd cs) && N.leb (snd cs) (p_hi r)) (snap_reports snap (fst cs))) msgs &&
+      nodupb (pair_eqb N.eqb N.eqb) msgs &&
+      (if N.eqb st 3 then
+         forallb (fun cr => match unexecuted (snd cr) with [] => false | _ => true end) pend
+       else list_eqb (pair_eqb N.eqb rep_eqb) pend
+              (flat_map (fun cre => map (pair (fst (fst cre))) (pending_spec (snd (fst cre)) (snd cre))) snap) &&
+            match msgs with [] => true | _ => false end)
+  | _ => false
+  end.
+
+Lemma hist_ok_stronger i o : hist_ok i o = true -> hist_ok_before i o = true.
+Proof.
+  destruct i as [st snap]. unfold hist_ok, hist_ok_before. destruct o as [[[pend msgs] omsgs]| | |]; try discriminate.
+  destruct (N.eqb st 3); [|trivial]. rewrite !andb_true_iff. tauto.
 Qed.
 
 (* ====================== sink C09_cycles: cyc_ok ====================== *)
@@ -1526,12 +1601,60 @@ Section ModelHist.
     apply no_overlap_chain; [exact H4|]. eapply Permutation_Forall; [|exact H3]. symmetry. apply sort_by_perm.
   Qed.
 
+  (* the model's Filter report holds every unexecuted message of every committed report: with it nothing stays pending *)
+  Lemma model_report_covers x r s : In x snap -> In r (snd (fst x)) -> p_lo r <= s <= p_hi r -> ~ in_union (snd x) s ->
+    In (ch x, s) (flat_map (fun cr : N * rep => map (pair (fst cr)) (unexecuted (snd cr))) (C09_check.cycle_pending snap)).
+  Proof.
+    intros Hx Hr Hs Hnu. rewrite snap_pending_PF.
+    assert (Hr' : In r (rsf x)) by (unfold rsf, by_start; now apply sort_by_in).
+    assert (Hlo : p_lo r <= p_hi r) by (apply (layout_wf _ (snap_lay x Hx)); exact Hr').
+    pose proof (snap_hi x r Hx Hr') as Hhi. pose proof (snap_es x Hx) as Hch.
+    assert (F : fullb (esf x) r = false).
+    { destruct (fullb (esf x) r) eqn:F; [|reflexivity]. apply (fullb_iff (esf x) 0 Hch r Hlo Hhi) in F.
+      exfalso. apply Hnu. apply (in_union_sorted (snd x) s). now apply F. }
+    set (r' := mkRep (p_id r) (p_lo r) (p_hi r) (cruns (esf x) r)).
+    apply in_flat_map. exists (ch x, r'). split.
+    - apply (PF_in snap ch rsf esf). exists x. split; [exact Hx|]. split; [reflexivity|]. apply pending_form_in.
+      exists r. now repeat split.
+    - cbn [fst snd]. apply in_map. apply (unexecuted_in r' s Hlo). cbn [p_lo p_hi p_exec]. split; [exact Hs|].
+      intros Hin. apply (cruns_in (esf x) 0 Hch r s) in Hin. apply Hnu. apply (in_union_sorted (snd x) s). tauto.
+  Qed.
+
+  Lemma model_nothing_stays_pending :
+    flat_map (fun cre : N * list rep * list range =>
+                map (pair (fst (fst cre)))
+                    (pending_spec (snd (fst cre))
+                       (snd cre ++ reported_runs
+                                     (flat_map (fun cr : N * rep => map (pair (fst cr)) (unexecuted (snd cr)))
+                                               (C09_check.cycle_pending snap)) (fst (fst cre))))) snap = [].
+  Proof.
+    set (ms := flat_map (fun cr : N * rep => map (pair (fst cr)) (unexecuted (snd cr))) (C09_check.cycle_pending snap)).
+    assert (G : forall l : list (N * list rep * list range), (forall x, In x l -> In x snap) ->
+                flat_map (fun cre => map (pair (fst (fst cre)))
+                    (pending_spec (snd (fst cre)) (snd cre ++ reported_runs ms (fst (fst cre))))) l = []).
+    { induction l as [|x l IH]; intros Hsub; [reflexivity|]. cbn [flat_map]. rewrite IH by (intros y Hy; apply Hsub; now right).
+      rewrite app_nil_r. assert (Hx : In x snap) by (apply Hsub; now left).
+      replace (pending_spec (snd (fst x)) (snd x ++ reported_runs ms (fst (fst x)))) with (@nil rep); [reflexivity|].
+      symmetry. rewrite pending_spec_unfold.
+      assert (H1 : forall r, In r (by_start (snd (fst x))) -> spec_one (snd x ++ reported_runs ms (fst (fst x))) r = []).
+      { intros r Hr. assert (Hlo : p_lo r <= p_hi r) by (apply (layout_wf _ (snap_lay x Hx)); exact Hr).
+        unfold spec_one. replace (fully_executed (snd x ++ reported_runs ms (fst (fst x))) (p_lo r) (p_hi r)) with true; [reflexivity|].
+        symmetry. apply (fully_all _ r Hlo). intros s Hs. apply in_union_with_reported.
+        destruct (in_runsb (snd x) s) eqn:Eb; [left; now apply in_runsb_iff|]. right.
+        apply (model_report_covers x r s Hx); [unfold by_start in Hr; now apply sort_by_in in Hr|exact Hs|].
+        intros Hu. apply in_runsb_iff in Hu. congruence. }
+      induction (by_start (snd (fst x))) as [|r rs IHr]; [reflexivity|]. cbn [flat_map].
+      rewrite (H1 r (or_introl eq_refl)), IHr; [reflexivity|]. intros y Hy. apply H1. now right. }
+    apply G. trivial.
+  Qed.
+
   Theorem hist_model_passes st : hist_ok (st, snap) (hist_model (st, snap)) = true.
   Proof.
     unfold hist_model, hist_ok. destruct (N.eqb st 3) eqn:E3.
-    - set (pend := C09_check.cycle_pending snap).
+    - rewrite model_nothing_stays_pending.
+      set (pend := C09_check.cycle_pending snap).
       set (ms := flat_map (fun cr : N * rep => map (pair (fst cr)) (unexecuted (snd cr))) pend).
-      cbn [forallb]. rewrite andb_true_r, !andb_true_iff. split; [split|].
+      cbn [forallb list_eqb]. rewrite !andb_true_r, !andb_true_iff. split; [split|].
       + apply js09_list_eqb_refl. intros a. now apply pairNN_eqb_eq.
       + apply forallb_forall. intros [c s] Hm. unfold ms in Hm. apply in_flat_map in Hm. destruct Hm as [[c' r'] [Hp Hm]].
         cbn [fst snd] in Hm. apply in_map_iff in Hm. destruct Hm as [s' [E Hs]]. inversion E; subst c' s'. cbn [fst snd].
@@ -1574,6 +1697,37 @@ Proof.
   - split; [change (by_start [mkRep 7 1 4 []]) with [mkRep 7 1 4 []]; cbn [layout p_lo p_hi]; lia|].
     split; [intros r [<-|[]]; cbn [p_exec p_hi]; unfold max64; split; [reflexivity|lia]|].
     split; [unfold max64; repeat constructor; cbn [fst snd]; lia|vm_compute; reflexivity].
+Qed.
+
+Lemma snap_legal_wf snap : snap_legal snap -> snap_wf snap.
+Proof.
+  intros [_ H] [[c reps] ex] r Hi Hr. cbn [fst snd] in Hr. destruct (H c reps ex Hi) as [Hl _].
+  now apply (layout_wf_sorted reps Hl).
+Qed.
+
+(* WEAK x_ok found and fixed (state 3).  Witnesses on ex_snap, whose chain 1 has report 2 = [10,12] with 11 executed:
+   the report holds 10 but not 12.  [o1] drops report 2 from the pending list although 12 is neither executed nor
+   reported; [o2] keeps it pending but records nothing as executed.  Both passed; the clause demands [o3]. *)
+Example hist_ok_before_weak :
+  let ms := [(1, 10); (2, 1); (2, 4)] in
+  let o1 : hist_out := Ok ([], ms, ms) in
+  let o2 : hist_out := Ok ([(1, mkRep 2 10 12 [])], ms, ms) in
+  let o3 : hist_out := Ok ([(1, mkRep 2 10 12 [(10, 11)])], ms, ms) in
+  hist_ok_before (3, ex_snap) o1 = true /\ hist_ok (3, ex_snap) o1 = false /\
+  hist_ok_before (3, ex_snap) o2 = true /\ hist_ok (3, ex_snap) o2 = false /\
+  hist_ok (3, ex_snap) o3 = true /\
+  (* o1 is forbidden by the second clause of hist_sound_filter: *)
+  (In (1, ex_reports, ex_executed) ex_snap /\ In (mkRep 2 10 12 []) ex_reports /\
+   ~ in_union ex_executed 12 /\ ~ In (1, 12) ms) /\
+  (* the hypotheses of hist_sound_filter hold on a non-trivial outcome *)
+  snap_wf ex_snap.
+Proof.
+  cbv zeta. repeat split; try (vm_compute; reflexivity).
+  - now left.
+  - now left.
+  - intros H. apply in_runsb_iff in H. vm_compute in H. discriminate.
+  - cbn [In]. intros [E|[E|[E|[]]]]; discriminate.
+  - apply snap_legal_wf. exact (proj1 hist_ok_example).
 Qed.
 
 (* ---------- sinks C09_pending, C09_observe: the model passes when no executed-ranges query fails ---------- *)
@@ -1687,6 +1841,128 @@ Qed.
 Lemma pend_model_passes_reader_error tab world : pend_ok (None, tab, world) (pend_model (None, tab, world)) = true.
 Proof. reflexivity. Qed.
 
+(* ---------- sink C09_pending: cases with a scripted failing executed-ranges query ----------
+   What the harness guarantees about a call log that shows a failure (harness/execute/c09_test.go,
+   TestVerif_C09_pending): the table is the log of the ExecutedMessageRanges calls the implementation made, in call
+   order, each with the answer it was given.  A failure is scripted PER CHAIN (execErrChain): every call for that chain
+   fails, so every logged call of a chain with a failed call is a failed call; the failing chain is one of the
+   scripted chains, and each of those has at least one commit report (vC09Layout builds 1..6 reports).  The answers
+   that were given are cut from the world's executed set inside the query (vC09Shape, allowBad = false), so they end
+   below 2^64-1.  No assumption is made about WHICH queries the implementation issued or in which order (Go iterates
+   the chain map in random order): the model answers Err as soon as some chain it must query is a failing chain. *)
+Definition scripted_failures (tab : list (N * range * option (list range))) (groups : list (N * list rep)) : Prop :=
+  forall e, In e tab -> snd e = None ->
+    (exists reps, In (fst (fst e), reps) groups /\ reps <> []) /\
+    (forall e', In e' tab -> fst (fst e') = fst (fst e) -> snd e' = None).
+Definition answers_below (tab : list (N * range * option (list range))) : Prop :=
+  forall e l x, In e tab -> snd e = Some l -> In x l -> snd x < max64.
+
+Lemma answer_of_chain_failed tab c :
+  (forall e', In e' tab -> fst (fst e') = c -> snd e' = None) -> forall q, answer_of tab c q = None.
+Proof.
+  intros H q. unfold answer_of. destruct (find _ tab) as [e|] eqn:F; [|reflexivity]. apply find_some in F.
+  destruct F as [Hi Hb]. apply andb_prop in Hb. destruct Hb as [Hc _]. apply N.eqb_eq in Hc. now apply H.
+Qed.
+Lemma answer_of_some tab c q l : answer_of tab c q = Some l -> exists e, In e tab /\ snd e = Some l.
+Proof.
+  unfold answer_of. destruct (find _ tab) as [e|] eqn:F; [|discriminate]. apply find_some in F. intros E. exists e. tauto.
+Qed.
+
+Lemma merge_some_nonempty es : forall c, merge_runs (Some c) es <> [].
+Proof.
+  induction es as [|e es IH]; intros [a b]; cbn [merge_runs]; [discriminate|].
+  destruct (N.ltb (snd e) (fst e)); [apply IH|]. destruct (N.leb (fst e) (b + 1)); [apply IH|discriminate].
+Qed.
+Lemma queries_nonempty reps : layout reps -> reps <> [] -> queries reps <> [].
+Proof.
+  destruct reps as [|r reps]; intros Hl Hne; [congruence|]. unfold queries. cbn [map merge_runs fst snd].
+  assert (Hr : p_lo r <= p_hi r) by (cbn [layout] in Hl; tauto).
+  destruct (N.ltb_spec (p_hi r) (p_lo r)) as [|_]; [lia|]. apply merge_some_nonempty.
+Qed.
+
+Lemma pending_chain_failed tab c reps :
+  layout reps -> (forall r, In r reps -> p_hi r < max64) -> reps <> [] ->
+  (forall q, answer_of tab c q = None) -> pending_chain (answer_of tab) c reps = Err.
+Proof.
+  intros Hl Hh Hne Hnone. pose proof (queries_nonempty reps Hl Hne) as Hq.
+  unfold pending_chain. destruct reps as [|r1 reps1] eqn:Ereps; [congruence|]. rewrite <- Ereps in *. clear Ereps.
+  rewrite (compute_ranges_merge _ (layout_asc reps Hl Hh)). cbn [rbind]. fold (queries reps).
+  destruct (queries reps) as [|q qs]; [congruence|]. cbn [map existsb]. now rewrite (Hnone q).
+Qed.
+
+Lemma pending_chain_calm tab c reps :
+  layout reps -> (forall r, In r reps -> p_hi r < max64) -> answers_below tab -> calm (pending_chain (answer_of tab) c reps).
+Proof.
+  intros Hl Hh Hb. unfold pending_chain. destruct reps as [|r1 reps1] eqn:Ereps; [split; discriminate|].
+  rewrite <- Ereps in *. clear Ereps.
+  rewrite (compute_ranges_merge _ (layout_asc reps Hl Hh)). cbn [rbind].
+  destruct (existsb _ _); [split; discriminate|]. apply filter_executed_calm. apply Forall_forall. intros x Hx.
+  apply in_concat in Hx. destruct Hx as [l [Hl' Hx]]. apply in_map_iff in Hl'. destruct Hl' as [a [Ea Ha]].
+  apply in_map_iff in Ha. destruct Ha as [q [Eq _]]. subst a. destruct (answer_of tab c q) as [l'|] eqn:Eans.
+  - subst l'. destruct (answer_of_some tab c q l Eans) as [e [He Hs]]. exact (Hb e l x He Hs Hx).
+  - subst l. contradiction.
+Qed.
+
+Lemma pending_all_calm f groups :
+  (forall c reps, In (c, reps) groups -> calm (pending_chain f c reps)) -> calm (pending_all f groups).
+Proof.
+  induction groups as [|[c reps] groups IH]; intros H; [split; discriminate|]. cbn [pending_all].
+  apply rbind_calm; [apply H; now left|]. intros rs. apply rbind_calm; [apply IH; intros c' reps' Hi; apply H; now right|].
+  intros rest. split; discriminate.
+Qed.
+Lemma pending_all_failed f groups c reps :
+  (forall c' reps', In (c', reps') groups -> calm (pending_chain f c' reps')) ->
+  In (c, reps) groups -> pending_chain f c reps = Err -> pending_all f groups = Err.
+Proof.
+  induction groups as [|[c0 reps0] groups IH]; intros Hcalm Hi He; [contradiction|]. cbn [pending_all].
+  destruct Hi as [E|Hi].
+  - inversion E; subst c0 reps0. now rewrite He.
+  - destruct (pending_chain f c0 reps0) as [rs| | |] eqn:E0; cbn [rbind]; try reflexivity.
+    + rewrite (IH (fun c' reps' H => Hcalm c' reps' (or_intror H)) Hi He). reflexivity.
+    + destruct (Hcalm c0 reps0 (or_introl eq_refl)) as [Hp _]. congruence.
+    + destruct (Hcalm c0 reps0 (or_introl eq_refl)) as [_ Hs]. congruence.
+Qed.
+
+(* (a) with a failed query in the log: the model answers Err, which pend_ok accepts *)
+Theorem pend_model_failing l tab :
+  groups_good (group_by_chain l) -> answers_below tab -> scripted_failures tab (group_by_chain l) ->
+  reader_failed tab -> pending_reports (Some l) (answer_of tab) = Err.
+Proof.
+  intros Hg Hb Hs [e [He Hn]]. destruct (Hs e He Hn) as [[reps [Hi Hne]] Hall]. unfold pending_reports.
+  destruct (Hg _ _ Hi) as [Hl Hh].
+  apply (pending_all_failed _ _ (fst (fst e)) reps); [|exact Hi|].
+  - intros c' reps' Hi'. destruct (Hg _ _ Hi') as [Hl' Hh']. now apply pending_chain_calm.
+  - apply pending_chain_failed; try assumption. now apply answer_of_chain_failed.
+Qed.
+Theorem pend_model_passes_failing l tab world :
+  groups_good (group_by_chain l) -> answers_below tab -> scripted_failures tab (group_by_chain l) ->
+  reader_failed tab -> pend_ok (Some l, tab, world) (pend_model (Some l, tab, world)) = true.
+Proof.
+  intros Hg Hb Hs Hf. unfold pend_ok, pend_model. rewrite (pend_model_failing l tab Hg Hb Hs Hf).
+  rewrite (proj2 (good_iff _) Hg). cbn [negb]. now apply any_err_iff.
+Qed.
+
+(* (a) for every case of the sink: with or without a scripted failure *)
+Theorem pend_model_passes_all l tab world :
+  groups_good (group_by_chain l) ->
+  (forall c reps r, In (c, reps) (group_by_chain l) -> In r reps -> p_exec r = []) ->
+  answers_below tab -> scripted_failures tab (group_by_chain l) ->
+  (~ reader_failed tab -> forall c reps, In (c, reps) (group_by_chain l) -> honest_answers tab world c reps) ->
+  pend_ok (Some l, tab, world) (pend_model (Some l, tab, world)) = true.
+Proof.
+  intros Hg Hex Hb Hs Hans.
+  destruct (existsb (fun e : N * range * option (list range) => match snd e with None => true | Some _ => false end) tab) eqn:E.
+  - apply pend_model_passes_failing; try assumption. now apply any_err_iff.
+  - assert (Hnf : ~ reader_failed tab) by (intros Hf; apply any_err_iff in Hf; congruence).
+    apply pend_model_passes; try assumption. now apply Hans.
+Qed.
+
+(* chain 2 was asked first and failed; chain 1 was never asked *)
+Definition ex_tab_failing : list (N * range * option (list range)) := [(2, (1, 4), None)].
+(* chain 1 was answered, then chain 2 failed *)
+Definition ex_tab_failing2 : list (N * range * option (list range)) :=
+  [(1, (5, 8), Some [(5, 6); (7, 8)]); (1, (10, 12), Some [(11, 11)]); (1, (20, 21), Some [(20, 21)]); (2, (1, 4), None)].
+
 Definition ex_crs : list (list (N * rep)) :=
   [[(1, mkRep 1 5 8 []); (2, mkRep 7 1 4 [])]; [(1, mkRep 2 10 12 [])]; [(1, mkRep 3 20 21 [])]].
 Definition ex_tab : list (N * range * option (list range)) :=
@@ -1702,6 +1978,36 @@ Example pend_ok_example :
   pend_ok (Some ex_crs, ex_tab, ex_world) (Ok [(1, [mkRep 2 10 12 [(11, 11)]]); (2, [])]) = false /\
   pend_ok (Some ex_crs, ex_tab, ex_world) Err = false.
 Proof. repeat split; vm_compute; reflexivity. Qed.
+
+Example pend_failing_example :
+  groups_good (group_by_chain ex_crs) /\
+  (answers_below ex_tab_failing /\ scripted_failures ex_tab_failing (group_by_chain ex_crs) /\ reader_failed ex_tab_failing) /\
+  (answers_below ex_tab_failing2 /\ scripted_failures ex_tab_failing2 (group_by_chain ex_crs) /\ reader_failed ex_tab_failing2) /\
+  pend_model (Some ex_crs, ex_tab_failing, ex_world) = Err /\ pend_model (Some ex_crs, ex_tab_failing2, ex_world) = Err /\
+  pend_ok (Some ex_crs, ex_tab_failing, ex_world) Err = true /\ pend_ok (Some ex_crs, ex_tab_failing2, ex_world) Err = true /\
+  (* an answer although a query failed: rejected *)
+  pend_ok (Some ex_crs, ex_tab_failing2, ex_world) (Ok [(1, [mkRep 2 10 12 [(11, 11)]]); (2, [mkRep 7 1 4 []])]) = false.
+Proof.
+  assert (G2 : In (2, [mkRep 7 1 4 []]) (group_by_chain ex_crs)) by (vm_compute; right; left; reflexivity).
+  split; [apply good_iff; vm_compute; reflexivity|]. split; [|split; [|repeat split; vm_compute; reflexivity]].
+  - split; [|split].
+    + intros e l x [<-|[]] Hs. discriminate.
+    + intros e [<-|[]] _. split; [exists [mkRep 7 1 4 []]; split; [exact G2|discriminate]|].
+      intros e' [<-|[]] _. reflexivity.
+    + exists (2, (1, 4), None). split; [now left|reflexivity].
+  - split; [|split].
+    + intros e l x Hi Hs Hx. unfold ex_tab_failing2 in Hi. cbn [In] in Hi.
+      repeat (destruct Hi as [<-|Hi];
+              [cbn [snd] in Hs; try discriminate; injection Hs as <-; cbn [In] in Hx;
+               repeat (destruct Hx as [<-|Hx]; [unfold max64; cbn [snd]; lia|]); contradiction|]).
+      contradiction.
+    + intros e Hi Hn. unfold ex_tab_failing2 in Hi. cbn [In] in Hi.
+      destruct Hi as [<-|[<-|[<-|[<-|[]]]]]; try discriminate Hn.
+      split; [exists [mkRep 7 1 4 []]; split; [exact G2|discriminate]|].
+      intros e' Hi' Hc. unfold ex_tab_failing2 in Hi'. cbn [In] in Hi'.
+      destruct Hi' as [<-|[<-|[<-|[<-|[]]]]]; cbn [fst snd] in Hc; try discriminate Hc. reflexivity.
+    + exists (2, (1, 4), None). split; [unfold ex_tab_failing2; cbn [In]; tauto|reflexivity].
+Qed.
 
 (* ---------- sink C09_history_big: histmon_judge compares with no model (its "model" is a constant and every output
    is accepted as equal), so it never reports a mismatch; what it reports is hist_ok on the implementation's outcome,
